@@ -389,13 +389,15 @@ pub fn replay(_ctx: &Ctx, case: &Value) -> Outcome {
 
     // the expansion and the frame summaries are other properties' business (C17, C26): informational
     let flat_texts: Vec<String> = obs.flat.iter().map(|i| i.to_quil_or_debug()).collect();
-    let want_texts: Vec<String> = want_flat.iter().map(|x| s(x, "text")).collect();
+    // (canonical printed form of the model's text)
+    let want_texts: Vec<String> = want_flat.iter().map(|x| util::instr(&s(x, "text")).to_quil_or_debug()).collect();
     if flat_texts != want_texts {
         o.diverge(format!("expanded block differs from the model: {flat_texts:?} vs {want_texts:?}"));
         return o;
     }
     for (j, sm) in summ.iter().enumerate() {
-        if sm.used != obs.used[j] || sm.blocked != obs.blocked[j] {
+        // (the frames of an instruction without a duration never matter for a schedule)
+        if sm.dur.is_some() && (sm.used != obs.used[j] || sm.blocked != obs.blocked[j]) {
             o.diverge(format!("matching_frames of `{}`: used {:?} blocked {:?}, Quil-T rules of the model: {:?} / {:?}",
                 flat_texts[j], obs.used[j], obs.blocked[j], sm.used, sm.blocked));
         }
@@ -675,7 +677,7 @@ pub fn drive(ctx: &Ctx) -> Summary {
                 .collect();
             let sets: Vec<Value> = (0..obs.flat.len()).map(|j| json!({"use": obs.used[j], "blk": obs.blocked[j]})).collect();
             util::emit(&mut out, &json!({"ev": "reset", "frames": frames, "wfs": wfs, "cals": cals, "src": src_abs,
-                "real_frames": sets,
+                "real_frames": sets, "real_ok": obs.flat_sched.is_ok(),
                 "edges": obs.edges.iter().map(|e| json!([e.0 + 1, e.1 + 1])).collect::<Vec<_>>()}));
             let mut events = 1;
             match &obs.flat_sched {
